@@ -95,21 +95,29 @@ def run_history(py):
     docs = []
     snap0 = _snapshot()
     datas = [T.mk_data(d) for d in pool["data"]]   # the caller's dict objects are reused, as a caller would
+    normalised = {}
+    renorm = []
     for op in py["ops"]:
         if op[0] == "C":
             _, iid, di, oi, kind, sc = op
             data = datas[di] if py.get("share_data", True) else T.mk_data(pool["data"][di])
             scale = None if sc < 0 else scales[sc]
             insts[iid] = T.mk_timeline(kind, data, T.mk_options(copy.deepcopy(pool["opts"][oi]), scale))
+            # the write-back into the caller's dicts must be idempotent (hypothesis norm_idem of
+            # C10_isolation_shared_data): a second construction from the same list changes nothing
+            now = repr([sorted(d.items(), key=lambda kv: kv[0]) for d in datas[di]])
+            if di in normalised and normalised[di] != now:
+                renorm.append(di)
+            normalised[di] = now
         else:
             docs.append(T.export_text(insts[op[1]]))
-    return {"docs": docs, "defaults_changed": _snap_diff(snap0, _snapshot())}
+    return {"docs": docs, "defaults_changed": _snap_diff(snap0, _snapshot()), "renormalised": renorm}
 
 
 def impl(py):
     r = run_history(py)
     return {"sha": [hashlib.sha1(d.encode("utf-8")).hexdigest() for d in r["docs"]],
-            "defaults_changed": r["defaults_changed"]}
+            "defaults_changed": r["defaults_changed"], "renormalised": r["renormalised"]}
 
 
 # --------------------------------------------------------------- generator ---
@@ -319,6 +327,9 @@ def oracle(case, io):
     process; repeated exports are identical; module defaults are untouched."""
     if isinstance(io, dict) and "exc" in io:
         return "raised %s: %s" % (io["exc"], io.get("msg", ""))
+    if io.get("renormalised"):
+        return ("constructing a second timeline from the same data list changed the caller's data again "
+                "(the write-back of parse_items is not idempotent): data set(s) %r" % io["renormalised"])
     if io.get("defaults_changed"):
         return "the history mutated module-level state of the labella package: %s" % ", ".join(io["defaults_changed"][:5])
     py = case["py"]
